@@ -1,11 +1,159 @@
-(* Prop_C19 — Bloch simulators are unitary and invert the SLR pulse design (statements only). *)
+(* Prop_C19 — Bloch simulators are unitary and invert the SLR pulse design.
+   Only statements; every proof is `exact <lemma>` (proofs/Bloch.v, proofs/Slr.v).
+   The simulators are the terms of model/Bloch.v (the same terms that run on floats in run/RunC19.v), here on R:
+   complex numbers are pairs of reals (CR), a state is (a, b) (StR), nrm (a, b) = |a|^2 + |b|^2, n2 z = |z|^2,
+   and the trig oracle is rcs t = (cos t, sin t). *)
 From Coq Require Import Reals ZArith List Bool.
-From SV Require Import model.Bloch proofs.Bloch.
+From SV Require Import model.Bloch proofs.Bloch proofs.Slr.
 Import ListNotations.
 Local Open Scope R_scope.
 
-(* every coded step  at = av*a - conj(bv)*b, bt = bv*a + conj(av)*b  multiplies |a|^2+|b|^2 by |av|^2+|bv|^2 *)
+(* [core] every coded step  at = av*a - conj(bv)*b, bt = bv*a + conj(av)*b  multiplies |a|^2+|b|^2 by |av|^2+|bv|^2 *)
 Theorem C19_su2_step :
   forall (m : CR * CR) (s : StR), nrm (su2_step m s) = nrm m * nrm s.
 Proof. exact su2_step_norm. Qed.
 Print Assumptions C19_su2_step.
+
+(* ... hence over ANY list of factors the norm is multiplied by the product of the factors' norms *)
+Theorem C19_su2_run :
+  forall (l : list (CR * CR)) (s : StR), nrm (su2_run l s) = Rprod (map nrm l) * nrm s.
+Proof. exact su2_run_norm. Qed.
+Print Assumptions C19_su2_run.
+
+(* abrm, exactly as coded (phi = sqrt(|rf|^2+om^2) + eps, axis divided by phi): for ANY waveform, position, eps,
+   |a|^2+|b|^2 = prod_t (cos^2(phi_t/2) + rho_t^2 sin^2(phi_t/2)),  rho_t = (phi_t - eps)/phi_t,
+   times the rewinder's factor when balanced *)
+Theorem C19_abrm_norm_product :
+  forall pi eps (rf : list CR) x balanced,
+    nrm (abrm (F:=RF) rcs pi eps rf x balanced) =
+    (if balanced then abrm_rewind_k pi eps x else 1) *
+    Rprod (map (fun r => let phi := abrm_phi eps (x * (1 * 2 * pi / INR (length rf))) r in
+                         let rho := (phi - eps) / phi in
+                         cos (phi / 2) * cos (phi / 2) + rho * rho * (sin (phi / 2) * sin (phi / 2))) rf).
+Proof. exact abrm_norm. Qed.
+Print Assumptions C19_abrm_norm_product.
+
+(* with the coded eps > 0 the main loop can only lose norm, by at most prod rho_t^2;  with eps = 0 it is exactly unitary *)
+Theorem C19_abrm_norm_bounds :
+  forall eps om (rf : list CR), 0 < eps ->
+    Rprod (map (fun r => abrm_rho eps om r * abrm_rho eps om r) rf) <= nrm (abrm_loop (F:=RF) rcs eps om rf st0) <= 1.
+Proof. exact abrm_loop_norm_bounds. Qed.
+Print Assumptions C19_abrm_norm_bounds.
+
+Theorem C19_abrm_unitary_without_eps :
+  forall om (rf : list CR), (forall r, In r rf -> 0 < n2 r + om * om) -> nrm (abrm_loop (F:=RF) rcs 0 om rf st0) = 1.
+Proof. exact abrm_loop_norm_eps0. Qed.
+Print Assumptions C19_abrm_unitary_without_eps.
+
+(* abrm_nd (phi = sqrt(|rf|^2+om^2), axis divided by phi + eps, om = x . g_t): rho_t = phi_t/(phi_t + eps) *)
+Theorem C19_abrm_nd_norm_product :
+  forall eps (rfg : list (CR * list R)) x,
+    nrm (abrm_nd (F:=RF) rcs eps rfg x) =
+    Rprod (map (fun rg => let phi := nd_phi x rg in let rho := phi / (phi + eps) in
+                          cos (phi / 2) * cos (phi / 2) + rho * rho * (sin (phi / 2) * sin (phi / 2))) rfg).
+Proof. exact abrm_nd_norm. Qed.
+Print Assumptions C19_abrm_nd_norm_product.
+
+Theorem C19_abrm_nd_norm_bounds :
+  forall eps (rfg : list (CR * list R)) x, 0 < eps ->
+    Rprod (map (fun rg => nd_rho eps x rg * nd_rho eps x rg) rfg) <= nrm (abrm_nd (F:=RF) rcs eps rfg x) <= 1.
+Proof. exact abrm_nd_norm_bounds. Qed.
+Print Assumptions C19_abrm_nd_norm_bounds.
+
+(* abrm_hp, blochsim, abrm_ptx: exactly unitary for ANY waveform, gradient, position, off-resonance, sensitivities *)
+Theorem C19_abrm_hp_unitary :
+  forall (rfg : list (CR * R)) x dom0dt, nrm (abrm_hp (F:=RF) rcs rfg x dom0dt) = 1.
+Proof. exact abrm_hp_norm. Qed.
+Print Assumptions C19_abrm_hp_unitary.
+
+Theorem C19_blochsim_unitary :
+  forall (rfg : list (CR * list R)) x, nrm (blochsim (F:=RF) rcs rfg x) = 1.
+Proof. exact blochsim_norm. Qed.
+Print Assumptions C19_blochsim_unitary.
+
+Theorem C19_abrm_ptx_unitary :
+  forall dtgam boff (sens : list CR) x (b1g : list (list CR * list R)),
+    nrm (abrm_ptx (F:=RF) rcs dtgam boff sens x b1g) = 1.
+Proof. exact abrm_ptx_norm. Qed.
+Print Assumptions C19_abrm_ptx_unitary.
+
+(* [core] zero RF => b = 0 (and a is a pure phase for the exactly unitary simulators; for abrm, a carries the
+   gradient phase, e.g. a = -1 at x = 1 — that is correct behaviour) *)
+Theorem C19_abrm_zero_rf :
+  forall pi eps (rf : list CR) x balanced,
+    (forall r, In r rf -> r = c0) -> snd (abrm (F:=RF) rcs pi eps rf x balanced) = c0.
+Proof. exact abrm_zero_rf. Qed.
+Print Assumptions C19_abrm_zero_rf.
+
+Theorem C19_abrm_nd_zero_rf :
+  forall eps (rfg : list (CR * list R)) x,
+    (forall rg, In rg rfg -> fst rg = c0) -> snd (abrm_nd (F:=RF) rcs eps rfg x) = c0.
+Proof. exact abrm_nd_zero_rf. Qed.
+Print Assumptions C19_abrm_nd_zero_rf.
+
+Theorem C19_abrm_hp_zero_rf :
+  forall (rfg : list (CR * R)) x d,
+    (forall rg, In rg rfg -> fst rg = c0) ->
+    snd (abrm_hp (F:=RF) rcs rfg x d) = c0 /\ n2 (fst (abrm_hp (F:=RF) rcs rfg x d)) = 1.
+Proof. exact abrm_hp_zero_rf_full. Qed.
+Print Assumptions C19_abrm_hp_zero_rf.
+
+Theorem C19_blochsim_zero_rf :
+  forall (rfg : list (CR * list R)) x,
+    (forall rg, In rg rfg -> fst rg = c0) ->
+    snd (blochsim (F:=RF) rcs rfg x) = c0 /\ n2 (fst (blochsim (F:=RF) rcs rfg x)) = 1.
+Proof. exact blochsim_zero_rf_full. Qed.
+Print Assumptions C19_blochsim_zero_rf.
+
+(* [core] composition: the pair returned for factors l1 ++ l2 is the ordered product — the first column of
+   M(l2) * M(l1) with M = [[a, -conj b], [b, conj a]], i.e. su2_step (result of l2) (result of l1) *)
+Theorem C19_composition_ordered_product :
+  forall (l1 l2 : list (CR * CR)), su2_run (l1 ++ l2) st0 = su2_step (su2_run l2 st0) (su2_run l1 st0).
+Proof. exact su2_run_compose. Qed.
+Print Assumptions C19_composition_ordered_product.
+
+Theorem C19_abrm_nd_composition :
+  forall eps (w1 w2 : list (CR * list R)) x,
+    abrm_nd (F:=RF) rcs eps (w1 ++ w2) x = su2_step (abrm_nd (F:=RF) rcs eps w2 x) (abrm_nd (F:=RF) rcs eps w1 x).
+Proof. exact abrm_nd_compose. Qed.
+Print Assumptions C19_abrm_nd_composition.
+
+(* abrm_hp / blochsim: FULL statement wanted:
+     abrm_hp (w1 ++ w2) x d = su2_step (abrm_hp w2 x d) (abrm_hp w1 x d)        (same for blochsim)
+   it needs exp(i(t1+t2)/2) = exp(i t1/2) exp(i t2/2) pushed through the closing total_phase; what IS proved is that
+   the per-sample loop over w1 ++ w2 is the loop over w2 continued from the state left by w1 (the closing phase is applied
+   once at the end).  The whole-function composition is validated numerically by props/C19.py on every case. *)
+Theorem C19_abrm_hp_composition_partial :
+  forall x d (w1 w2 : list (CR * R)) s,
+    abrm_hp_loop (F:=RF) rcs x d (w1 ++ w2) s = abrm_hp_loop (F:=RF) rcs x d w2 (abrm_hp_loop (F:=RF) rcs x d w1 s).
+Proof. exact abrm_hp_loop_app. Qed.
+Print Assumptions C19_abrm_hp_composition_partial.
+
+Theorem C19_blochsim_composition_partial :
+  forall x (w1 w2 : list (CR * list R)) s,
+    blochsim_loop (F:=RF) rcs x (w1 ++ w2) s = blochsim_loop (F:=RF) rcs x w2 (blochsim_loop (F:=RF) rcs x w1 s).
+Proof. exact blochsim_loop_app. Qed.
+Print Assumptions C19_blochsim_composition_partial.
+
+(* [core] SLR.  FULL statement wanted:  |theta_j| < pi  ->  ab2rf (forward_slr rf) = rf.
+   Proved here on the rotation parameters: for ANY list of hard pulses (c_j, s_j) with c_j > 0 (that is |theta_j| < pi,
+   c_j = cos(theta_j/2)) and c_j^2 + |s_j|^2 = 1, the peeling recursion of ab2rf (top-coefficient ratio, sqrt, conj, the
+   two polynomial updates and the two slices, model/Bloch.v slr_peel/slr_inv) applied to the polynomials produced by the
+   forward hard-pulse recursion returns exactly the list (c_j, s_j).
+   Missing for the full statement: the last line of ab2rf, rf_j = 2*atan2(|s_j|, c_j)*exp(1j*angle(s_j)), is the inverse of
+   theta |-> (cos(|theta|/2), exp(1j*angle(theta))*sin(|theta|/2)) for |theta| < pi (atan2/angle are not modelled);
+   that conversion is validated numerically by the correspondence (chk_ab2cs) and the |B| round trip. *)
+Theorem C19_ab2rf_inverts_partial :
+  forall (l : list (R * CR)),
+    (forall m, In m l -> 0 < fst m /\ fst m * fst m + n2 (snd m) = 1) ->
+    ab2cs (F:=RF) (fst (slr_fwd (F:=RF) l)) (snd (slr_fwd (F:=RF) l)) = l.
+Proof. exact ab2cs_inverts. Qed.
+Print Assumptions C19_ab2rf_inverts_partial.
+
+Example C19_ab2rf_hypotheses_satisfiable :
+  forall m, In m [(1 / 2, ((sqrt 3) / 2, 0)); (1, (0, 0))] -> 0 < fst m /\ fst m * fst m + n2 (snd m) = 1.
+Proof. exact good_example. Qed.
+
+(* non-vacuity of the eps hypotheses: the coded regulariser *)
+Example C19_eps_positive : 0 < 1e-16.
+Proof. exact eps_example. Qed.
